@@ -647,11 +647,15 @@ func (b *Builder) compositeKey() (*spec.T, *spec.T) {
 
 func (b *Builder) exotic() (*spec.T, *spec.T) {
 	var t *spec.T
-	kind := b.draw(5, "exotic")
+	kind := b.draw(6, "exotic")
 	if b.comparableOnly && kind == 2 {
 		kind = 0 // funcs are not comparable
 	}
 	switch kind {
+	case 5:
+		// a struct of the standard library with unexported fields: convertible only as a whole
+		b.label("leaf:std-time")
+		t = spec.Named("time", "Time")
 	case 0:
 		t = spec.Iface("any")
 	case 1:
